@@ -458,6 +458,13 @@ func fixProgramNumbers(p *ir.Program) {
 			if x.K == "lit" {
 				x.V = exactNumbers(x.V)
 			}
+			for i := range x.Path {
+				if n, ok := x.Path[i].(json.Number); ok {
+					if v, err := n.Int64(); err == nil {
+						x.Path[i] = int(v) // list indexes and integer map keys are ints in a generated program
+					}
+				}
+			}
 		})
 	}
 	for _, s := range p.Steps {
